@@ -6,6 +6,7 @@ import tempfile
 from pathlib import Path
 
 from checks import e2e_pages
+from checks import l2walk
 from checks import pagegen as G
 
 PROPERTY = "C02"
@@ -16,13 +17,15 @@ EXPLANATION = (
     "flags (digit-only tags dropped, quoted properties skipped), every tag/link/property listener method goes through them, "
     "exitHk_section resets exactly level k, enterItem clears the note-level stores, create_date and properties implement the "
     "stated precedence (note > h4 > ... > file > today; innermost key wins) - all with frame obligations. "
-    "That the scope flags encode the syntactic region for every parse tree (Level 2) is covered by the bounded tier: "
-    "exhaustive enumeration of section skeletons with one decorated scope each, plus random pages."
+    "Level 2 (deductive, all parse trees): the walk of the listener over every derivation of ZorgFileParser.atn is verified over a predicate abstraction of the compiler state (engine/l2.py): each listener method is replaced by its Level-1 contract (one symbolic summary per method, abstract transformers by all-SAT), reachability over the ATN with rule summaries is the inductive invariant, and the walk obligations hold on it: the scope flags encode the syntactic region at every word (G1), a section's stores are empty when it is entered and reset when it is left (G3), parent sections are open (G6), the todo registers hold their defaults at every item (G5), note registers are reset and a block is open at every note, everything is closed at the end, and every precondition of a listener method holds at every call of the walk. "
+    "The bounded tier (exhaustive enumeration of section skeletons with one decorated scope each, plus random pages) ties the "
+    "composition to the statement end to end."
 )
-ASSUMPTIONS = [
+ASSUMPTIONS = l2walk.ASSUMPTIONS + [
     "A-ANTLR-TREE (see C01)", "A-ASCII",
     "_get_current_tags (sorted set union of the six stores) is used through an assumed contract; exercised by the bounded tier",
 ]
+EXTRA = [l2walk.l2_file_walk]
 TRUSTED = ["antlr4 runtime", "z3 5.1 / cvc5 1.0.3", "pyvc symbolic interpreter (engine/)"]
 
 
